@@ -2,6 +2,7 @@ package main
 
 import (
 	"fmt"
+	"go/token"
 	"sort"
 
 	"golang.org/x/tools/go/ssa"
@@ -259,4 +260,61 @@ func resolvePhiOnPath(v ssa.Value, order []*ssa.BasicBlock) ssa.Value {
 		}
 	}
 	return v
+}
+
+// sliceValues: sliceLiteralValues, also through a package-level slice variable that is given a literal once,
+// in the package initialiser, and never written (as a whole or by element) anywhere else.
+func (p *Prog) sliceValues(v ssa.Value) []ssa.Value {
+	for {
+		switch x := v.(type) {
+		case *ssa.MakeInterface:
+			v = x.X
+			continue
+		case *ssa.ChangeType:
+			v = x.X
+			continue
+		}
+		break
+	}
+	ld, ok := v.(*ssa.UnOp)
+	if !ok || ld.Op != token.MUL {
+		return sliceLiteralValues(v)
+	}
+	g, ok := ld.X.(*ssa.Global)
+	if !ok {
+		return nil
+	}
+	var whole []*ssa.Store
+	for _, f := range p.Funcs {
+		for _, b := range f.Blocks {
+			for _, in := range b.Instrs {
+				switch x := in.(type) {
+				case *ssa.Store:
+					if x.Addr == ssa.Value(g) {
+						whole = append(whole, x)
+					} else if x.Val == ssa.Value(g) {
+						return nil // address kept somewhere
+					}
+				case *ssa.IndexAddr:
+					if l2, isL := x.X.(*ssa.UnOp); isL && l2.Op == token.MUL && l2.X == ssa.Value(g) && x.Referrers() != nil {
+						for _, r := range *x.Referrers() {
+							if st, isSt := r.(*ssa.Store); isSt && st.Addr == ssa.Value(x) {
+								return nil // an element is overwritten
+							}
+						}
+					}
+				case ssa.CallInstruction:
+					for _, a := range x.Common().Args {
+						if a == ssa.Value(g) {
+							return nil // address handed on
+						}
+					}
+				}
+			}
+		}
+	}
+	if len(whole) != 1 || whole[0].Parent().Name() != "init" || whole[0].Parent().Synthetic == "" {
+		return nil
+	}
+	return sliceLiteralValues(whole[0].Val)
 }
